@@ -4,6 +4,7 @@
 import sys
 import os
 import json
+import re
 import argparse
 from pel.datastream import DataStream
 from collections import OrderedDict
@@ -183,11 +184,16 @@ def buildOutput(sections: list, out: OrderedDict):
 def prettyPrint(Mdata: str, desiredSpace: int = 34) -> str:
     # After index of these 2 characters ":  need to add desired space.
     CHARACTER_SPACE = 2
+    # A key is a JSON string at the start of the line (after the indentation)
+    # that is followed by a colon. Anything else containing ": (a string in an
+    # array, a key or value with an embedded quote) must be left alone.
+    keyRE = re.compile(r' *"(?:[^"\\]|\\.)*":')
     lines = Mdata.split("\n")
     for i in range(len(lines)):
         line = lines[i]
-        if "\":" in line and "{" not in line:
-            ind = line.index("\":")
+        match = keyRE.match(line)
+        if match and "{" not in line:
+            ind = match.end() - CHARACTER_SPACE
             spaces = (desiredSpace - ind) * " "    # Calculating spaces needed to add to get the desired spacing.
             ind += CHARACTER_SPACE
             lines[i] = line[:ind] + spaces + line[ind:]
